@@ -1,3 +1,4 @@
 pub mod core;
+pub mod layoutfam;
 pub mod shrink;
 pub mod tycheck;
